@@ -264,6 +264,85 @@ def d3(chk, prog):
                f"flatten() fast path tests {a_flat}; stated: start[1:] - end.cummax[:-1] >= 0", witness=dict(got=str(a_flat)))
 
 
+def lit_merge(rows, bp=0):
+    """merge()'s contract on literal rows: per chromosome, a row joins the running group unless the gap to the furthest end so far
+    exceeds -bp (bp = 0: overlapping or abutting rows fuse); chromosomes in first-appearance order"""
+    out = []
+    for c in dict.fromkeys(r[0] for r in rows):
+        cur = None
+        for _c, s, e in sorted(r for r in rows if r[0] == c):
+            if cur and s - cur[2] <= -bp:
+                cur[2] = max(cur[2], e)
+            else:
+                cur = [c, s, e]
+                out.append(cur)
+    return [tuple(r) for r in out]
+
+
+def d1b(chk, prog):
+    chk.clause("D1b", "subtract(): every row of the table minus the union of the other table's rows on its chromosome, in order (literal small tables; merge() summarised by its contract)")
+    fi = prog.fn("skgenome.subtract.subtract")
+    tb = Table(chk, "subtraction", "subtract on literal tables: overlapping / nested / unsorted / abutting subtrahends, chromosomes missing on either side", fi.loc(), fi.qn)
+    grid = [0, 4, 8, 12, 16]
+    ivs = [(a, b) for a in grid for b in grid if a < b]
+    tables = [[("a", 0, 16)], [("a", 4, 12)], [("a", 0, 8), ("a", 8, 16)], [("a", 0, 8), ("b", 4, 12)], [("b", 0, 16), ("a", 4, 12)]]
+    others = [[]] + [[("a",) + i] for i in ivs] + [[("c",) + i] for i in ivs[:3]] + [[("a",) + i, ("a",) + j] for i in ivs for j in ivs] + [[("a",) + i, ("c", 0, 16)] for i in ivs]
+
+    def mk(rows):
+        df = DF({"chromosome": Vec([r[0] for r in rows], aligned=True), "start": Vec([r[1] for r in rows], aligned=True), "end": Vec([r[2] for r in rows], aligned=True)}, len(rows))
+        df.exact = True
+        return df
+    bad, undecided, ran = [], [], 0
+    for trows in tables:
+        for orows in others:
+            W.reset()
+            model = Model()
+            def merge_contract(it, t, bp=0, stranded=False, combine=None):
+                if not isinstance(bp, int) or stranded:
+                    raise Undecided(f"merge(bp={bp!r}, stranded={stranded!r})")
+                return mk(lit_merge(list(zip(t.cols["chromosome"].v, t.cols["start"].v, t.cols["end"].v)), bp))
+            model.prims["skgenome.merge.merge"] = merge_contract
+
+            def from_records(it, *a, **k):
+                from ..absmodel import frame_from_records
+                out = frame_from_records(it, list(a), dict(k))
+                if isinstance(out, DF):
+                    out.exact = True
+                return out
+            model.ext["pd.DataFrame.from_records"] = from_records
+            it = Interp(prog, model)
+            try:
+                out = it.run(fi.qn, [mk(trows), mk(orows)])
+            except Undecided as u:
+                undecided.append(f"{trows} - {orows}: {u}")
+                continue
+            except Raised as r:
+                bad.append(dict(table=trows, other=orows, raised=str(r)[:100]))
+                continue
+            ran += 1
+            got = list(zip(out.cols["chromosome"].v, out.cols["start"].v, out.cols["end"].v)) if isinstance(out, DF) and out.n else ([] if isinstance(out, DF) else repr(out))
+            want = []
+            for c in dict.fromkeys(r[0] for r in trows):
+                for _c, s, e in [r for r in trows if r[0] == c]:
+                    cur = s
+                    for _oc, os_, oe in [m for m in lit_merge(orows) if m[0] == c]:
+                        if oe <= cur or os_ >= e:
+                            continue
+                        if os_ > cur:
+                            want.append((c, cur, os_))
+                        cur = max(cur, oe)
+                    if cur < e:
+                        want.append((c, cur, e))
+            if got != want:
+                bad.append(dict(table=trows, other=orows, got=got, want=want))
+    if undecided:
+        tb.undecided.append(f"{len(undecided)} table pairs undecided, e.g. {undecided[0][:300]}")
+    else:
+        chk.floor("literal subtractions", ran, 500)
+    tb.cell(not bad, dict(pairs=ran, counterexamples=bad[:4], n_counterexamples=len(bad)))
+    tb.done("a.subtract(b) is not exactly the part of a outside the union of b's rows (per chromosome, rows kept in order)")
+
+
 def d3b(chk, prog):
     """soundness of the two fast paths on literal small tables: a table returned as it is has nothing left to merge / flatten"""
     chk.clause("D3b", "merge / flatten fast paths are sound: a table returned unchanged has no rows of one chromosome left to merge (literal small tables, rows in any order)")
@@ -437,6 +516,12 @@ class Quot:
     def abs_binop(self, op, other, reflected):
         if isinstance(op, ast.Mult) and isinstance(other, int):
             return Prod(self.v * other, self.inexact)
+        if isinstance(op, (ast.Add, ast.Sub)) and isinstance(other, (int, float, Fr)) and not isinstance(other, bool) and not (reflected and isinstance(op, ast.Sub)):
+            o = Fr(str(other)) if isinstance(other, float) else Fr(other)
+            v = self.v + o if isinstance(op, ast.Add) else self.v - o
+            if self.inexact and v.denominator == 1:
+                raise Undecided("a float sum whose exact value is an integer but whose summand is not exactly representable (truncation is fragile)")
+            return Quot(v)
         raise Undecided(f"quotient arithmetic {type(op).__name__}")
 
     def __format__(self, spec):
@@ -516,12 +601,13 @@ def run(chk):
               "merge() returns a sorted, disjoint, non-nested table (its own predicate is checked in D3)")
     chk.assume("exact arithmetic over the rationals")
     d1(chk, prog)
+    d1b(chk, prog)
     d2(chk, prog)
     d3b(chk, prog)
     d3(chk, prog)
     d4(chk, prog)
     spans = [(1000, 300, 0), (1000, 3000, 0), (100, 300, 0), (449, 300, 0), (450, 300, 0), (751, 300, 0), (1500, 300, 0), (1800, 300, 0),
-             (299, 300, 300), (300, 300, 300), (301, 300, 300), (10, 300, 11), (7, 2, 0), (1798, 200 / 0.75, 0), (2000, 300, 0)]
+             (299, 300, 300), (300, 300, 300), (301, 300, 300), (10, 300, 11), (7, 2, 0), (1798, 200 / 0.75, 0), (2000, 300, 0), (250, 100, 0), (350, 100, 0), (450, 100, 0)]
     if chk.tier == "thorough":
         spans += [(sp, av, mn) for sp in (1, 2, 5, 149, 150, 151, 600, 601, 899, 900, 1234, 2000) for av in (100, 267, 300) for mn in (0, 150, sp, sp + 1)]
     d5(chk, prog, spans)
@@ -529,6 +615,12 @@ def run(chk):
 
 _M = "skgenome/merge.py"
 MUTANTS = [
+    dict(name="seeded C12e: subtraction drops rows on chromosomes the subtrahend lacks", file="skgenome/subtract.py", old='by_ranges(other, table, "outer", True)', new='by_ranges(other, table, mode="outer", keep_empty=False)'),
+    dict(name="seeded C12f: half quotients rounded up", file="skgenome/subdivide.py", old="            nbins = int(round(span / avg_size)) or 1", new="            nbins = max(1, int(span / avg_size + 0.5))"),
+    dict(name="seeded C13f: abutting exclusions not fused and empty pieces kept", edits=[("skgenome/subtract.py", "    other = merge(other)\n", "    other = merge(other, bp=1)\n"), ("skgenome/subtract.py", "                if end > start:\n                    yield keeper._replace(start=start, end=end)\n                else:\n                    logging.debug(\"Discarding pair: (%d, %d)\", start, end)\n", "                yield keeper._replace(start=start, end=end)\n")]),
+    dict(name="twin: abutting exclusions not fused, empty pieces still discarded", expect="silent", file="skgenome/subtract.py", old="    other = merge(other)\n", new="    other = merge(other, bp=1)\n"),
+    # (the extra (end, end) pair is discarded by the `end > start` filter: equivalent)
+    dict(name="twin: subtraction keeps the right edge when the exclusion reaches it", expect="silent", file="skgenome/subtract.py", old="            keep_right = keeper.end > rows_to_exclude.end.iat[-1]", new="            keep_right = keeper.end >= rows_to_exclude.end.iat[-1]"),
     dict(name="seeded C06c: merge fast path per chromosome, chromosome changes masked", file="skgenome/merge.py", old="""    gap_sizes = table.start.values[1:] - table.end.cummax().values[:-1]
     if (gap_sizes > -bp).all():
         return table
